@@ -32,6 +32,14 @@ func stdModel(in *px.Interp, st *px.State, ci *px.CallInfo) *px.Model {
 	return nil
 }
 
+// goSafeModel: threading.GoSafe(fn) runs fn (in a new goroutine, under a recover).
+func goSafeModel(in *px.Interp, st *px.State, ci *px.CallInfo) *px.Model {
+	if ci.Static != nil && shortName(ci) == "core/threading.GoSafe" && len(ci.Args) == 1 {
+		return &px.Model{Invoke: []*px.Sym{ci.Args[0]}}
+	}
+	return nil
+}
+
 func models(ms ...func(in *px.Interp, st *px.State, ci *px.CallInfo) *px.Model) func(in *px.Interp, st *px.State, ci *px.CallInfo) *px.Model {
 	return func(in *px.Interp, st *px.State, ci *px.CallInfo) *px.Model {
 		for _, m := range ms {
